@@ -337,7 +337,7 @@ class CFG:
     return out
 
   # --------------------------------------------------------------- must-facts
-  def must_facts(self, edge_facts, kill):
+  def must_facts(self, edge_facts, kill, extra_in=None):
     """Forward must-analysis.
 
     edge_facts(node, edge_kind) -> iterable of facts established when leaving
@@ -362,6 +362,8 @@ class CFG:
           new = out
         else:
           new = inn[b] & out
+        if extra_in and b in extra_in:
+          new = new | extra_in[b]       # facts known to hold on entry to b whatever the path (see lib.std_facts: join disjunctions)
         if new != inn[b]:
           inn[b] = new
           work.append(b)
